@@ -466,3 +466,222 @@ pub fn matrix(_env: &Env, ctx: &Ctx) -> Result<Vec<c16::Case>, String> {
     }
     Ok(out)
 }
+
+// ------------------------------------------------------------------------------------------------
+// Connection histories: several requests on ONE gRPC connection (one channel, one registered bi-stream) of node B
+// (token TTL B_TTL_S). The statement quantifies over requests, not over connections: what an earlier request on the
+// same connection presented must not matter, and a token that has expired in the meantime is "no token".
+
+#[derive(Debug, Clone, Copy, Serialize, Deserialize, PartialEq, Eq, Hash)]
+pub enum ConnTok {
+    None,
+    Garbage,
+    NeverIssued,
+    /// the token a login on B returned at the start of the history
+    Fresh,
+}
+
+#[derive(Debug, Clone, Copy, Serialize, Deserialize, PartialEq, Eq, Hash)]
+pub enum ConnWait {
+    No,
+    Ms(u16),
+    /// until the fresh token is older than its TTL + 1.5 s
+    UntilExpired,
+}
+
+#[derive(Debug, Clone, Serialize, Deserialize, Hash)]
+pub struct ConnStep {
+    pub wait: ConnWait,
+    /// index into CONN_TYPES
+    pub req: u8,
+    pub tok: ConnTok,
+    pub in_authorization: bool,
+}
+
+#[derive(Debug, Clone, Serialize, Deserialize, Hash)]
+pub struct ConnCase {
+    pub steps: Vec<ConnStep>,
+}
+
+// (no remove: an authorised one would take the shared fixture away under the other cases)
+pub const CONN_TYPES: &[&str] = &["ConfigQueryRequest", "ConfigPublishRequest", "ServiceQueryRequest", "InstanceRequest", "ServiceListRequest"];
+
+pub fn conn_case_strategy() -> BoxedStrategy<c16::Case> {
+    let tok = prop_oneof![2 => Just(ConnTok::None), 2 => Just(ConnTok::Garbage), 2 => Just(ConnTok::NeverIssued), 5 => Just(ConnTok::Fresh)];
+    let wait = prop_oneof![5 => Just(ConnWait::No), 2 => (1u16..600).prop_map(ConnWait::Ms), 2 => Just(ConnWait::UntilExpired)];
+    let step = (wait, 0u8..CONN_TYPES.len() as u8, tok, any::<bool>()).prop_map(|(wait, req, tok, in_authorization)| ConnStep { wait, req, tok, in_authorization });
+    prop::collection::vec(step, 2..9).prop_map(|steps| c16::Case::GrpcConn(ConnCase { steps })).boxed()
+}
+
+struct StepOut {
+    resp: Result<GResp, String>,
+    /// age of the fresh token (since the login request was SENT / since its answer ARRIVED) when the step was sent / answered
+    age_sent_min_ms: u128,
+    age_answered_max_ms: u128,
+    keys: Keys,
+    headers: HashMap<String, String>,
+}
+
+pub fn run_conn(env: &Env, case: &ConnCase) -> CaseReport {
+    let mut labels: BTreeSet<String> = BTreeSet::new();
+    labels.insert("grpc_connection_history".into());
+    let discard = |labels: &BTreeSet<String>, m: String| CaseReport { labels: labels.iter().cloned().collect(), nontrivial: false, verdict: Verdict::Discard(m) };
+    let node = &env.b;
+    let ttl_ms = c16::B_TTL_S as u128 * 1000;
+    // the fresh token of this history
+    let t_login_sent = std::time::Instant::now();
+    let fresh = match node.api_login(crate::c1617::srv::ADMIN_USER, crate::c1617::srv::admin_pass()) {
+        Ok(t) => t,
+        Err(e) => return discard(&labels, format!("login on B: {}", e)),
+    };
+    let t_login_answered = std::time::Instant::now();
+    let never = env.token_text(&c16::TokVal::NeverIssued { kind: 0, seed: 23 });
+    let base = env.counter.fetch_add(case.steps.len() as u64 + 1, std::sync::atomic::Ordering::Relaxed);
+    let port = node.grpc;
+    let rt = match tokio::runtime::Builder::new_current_thread().enable_all().build() {
+        Ok(r) => r,
+        Err(e) => return discard(&labels, e.to_string()),
+    };
+    let steps = case.steps.clone();
+    let fresh2 = fresh.clone();
+    let outs: Result<Vec<StepOut>, String> = rt.block_on(async move {
+        let ch = tonic::transport::Endpoint::new(format!("http://127.0.0.1:{}", port)).map_err(|e| e.to_string())?.timeout(Duration::from_secs(8)).connect().await.map_err(|e| format!("grpc connect: {}", e))?;
+        let mut client = RequestClient::new(ch.clone());
+        let setup = am::ConnectionSetupRequest { client_version: Some("Nacos-Java-Client:v2.1.0".into()), tenant: Some("".into()), labels: Some(HashMap::new()), ..Default::default() };
+        let first = PayloadUtils::build_payload("ConnectionSetupRequest", serde_json::to_string(&setup).unwrap_or_default());
+        let out = futures_util::stream::iter(vec![first]).chain(futures_util::stream::pending());
+        let mut bi = BiRequestStreamClient::new(ch.clone());
+        let _keep = bi.request_bi_stream(out).await.map_err(|e| format!("bi stream: {}", e))?;
+        let mut ok = false;
+        for _ in 0..100 {
+            let hc = PayloadUtils::build_payload("HealthCheckRequest", "{}".to_string());
+            if let Ok(r) = client.request(hc).await {
+                if parse_resp(r.get_ref()).result_code == 200 {
+                    ok = true;
+                    break;
+                }
+            }
+            tokio::time::sleep(Duration::from_millis(20)).await;
+        }
+        if !ok {
+            return Err("bi-stream connection was not registered within 2 s".into());
+        }
+        let mut outs = vec![];
+        for (i, s) in steps.iter().enumerate() {
+            match s.wait {
+                ConnWait::No => {}
+                ConnWait::Ms(ms) => tokio::time::sleep(Duration::from_millis(ms as u64)).await,
+                ConnWait::UntilExpired => {
+                    let want = Duration::from_millis(ttl_ms as u64 + 1500);
+                    let age = t_login_sent.elapsed();
+                    if age < want {
+                        tokio::time::sleep(want - age + Duration::from_millis(20)).await;
+                    }
+                    // keep the connection alive the way the SDK does
+                    let hc = PayloadUtils::build_payload("HealthCheckRequest", "{}".to_string());
+                    let _ = client.request(hc).await;
+                }
+            }
+            let t = CONN_TYPES[s.req as usize % CONN_TYPES.len()];
+            let read_only = matches!(t, "ConfigQueryRequest" | "ServiceQueryRequest" | "ServiceListRequest");
+            // reads name the fixture (an authorised read returns data); writes name keys of their own
+            let fixture = false;
+            let keys = if read_only {
+                Keys { cfg: c16::FIX_CFG.into(), svc: c16::FIX_SVC.into(), content: "c16-overwritten".into() }
+            } else {
+                Keys { cfg: format!("c16-h-cfg-{}-{}", base, i), svc: format!("c16-h-svc-{}-{}", base, i), content: format!("c16-h-content-{}-{}", base, i) }
+            };
+            let mut headers: HashMap<String, String> = HashMap::new();
+            let text = match s.tok {
+                ConnTok::None => None,
+                ConnTok::Garbage => Some("mock_token".to_string()),
+                ConnTok::NeverIssued => Some(never.clone()),
+                ConnTok::Fresh => Some(fresh2.clone()),
+            };
+            if let Some(x) = text {
+                headers.insert(if s.in_authorization { "Authorization" } else { "accessToken" }.to_string(), x);
+            }
+            let payload = PayloadUtils::build_full_payload(t, body_for(t, &keys, fixture), "127.0.0.1", headers.clone());
+            let age_sent_min_ms = t_login_answered.elapsed().as_millis();
+            let resp = match tokio::time::timeout(Duration::from_secs(10), client.request(payload)).await {
+                Ok(Ok(r)) => Ok(parse_resp(r.get_ref())),
+                Ok(Err(e)) => Err(format!("grpc status: {}", e)),
+                Err(_) => Err("timed out".to_string()),
+            };
+            let age_answered_max_ms = t_login_sent.elapsed().as_millis();
+            outs.push(StepOut { resp, age_sent_min_ms, age_answered_max_ms, keys, headers });
+        }
+        Ok(outs)
+    });
+    let outs = match outs {
+        Ok(o) => o,
+        Err(e) => return discard(&labels, e),
+    };
+    let mut served_fresh_before = false;
+    let mut nontrivial = false;
+    let mut violation: Option<String> = None;
+    let mut to_confirm: Vec<(usize, c16::FamilyPub, String, String, bool)> = vec![];
+    for (i, (s, o)) in case.steps.iter().zip(outs.iter()).enumerate() {
+        let t = CONN_TYPES[s.req as usize % CONN_TYPES.len()];
+        let resp = match &o.resp {
+            Ok(r) => r,
+            Err(e) => return discard(&labels, format!("step {}: {}", i, e)),
+        };
+        let is_err = resp.ptype == "ErrorResponse";
+        let refused = is_err && (resp.error_code == 403 || resp.error_code == 301 || resp.error_code == 302);
+        let describe = format!("step #{} on one connection: gRPC type={} headers={:?} -> {} {} (fresh token age {}..{} ms, TTL {} ms)", i, t, o.headers, resp.ptype, resp.raw, o.age_sent_min_ms, o.age_answered_max_ms, ttl_ms);
+        let fam = match t {
+            "ConfigPublishRequest" => Some(c16::FamilyPub::Config),
+            "InstanceRequest" => Some(c16::FamilyPub::Naming),
+            _ => None,
+        };
+        let must_refuse = match s.tok {
+            ConnTok::Fresh => {
+                if o.age_sent_min_ms > ttl_ms + 1400 {
+                    labels.insert("h_expired_token_on_used_connection".into());
+                    true
+                } else {
+                    // alive, or in the grey zone around the TTL: served or refused, not judged
+                    if !is_err && resp.result_code == 200 {
+                        served_fresh_before = true;
+                        labels.insert("h_fresh_token_served".into());
+                    }
+                    false
+                }
+            }
+            _ => true,
+        };
+        if must_refuse {
+            if served_fresh_before {
+                nontrivial = true;
+                labels.insert("h_refusal_expected_after_a_served_request".into());
+            }
+            if !refused {
+                violation = Some(format!("G1: data request served without a valid session token: {}", describe));
+                break;
+            }
+            if let Some(f) = fam {
+                to_confirm.push((i, f, o.keys.cfg.clone(), o.keys.svc.clone(), false));
+            }
+        }
+    }
+    if violation.is_none() {
+        for (i, f, cfg, svc, fixture) in to_confirm {
+            match c16::confirm_unchanged_pub(env, true, f, &cfg, &svc, fixture) {
+                Ok(None) => {
+                    labels.insert("g_write_confirmed".into());
+                }
+                Ok(Some(m)) => {
+                    violation = Some(format!("G1: step #{} was refused but {}", i, m));
+                    break;
+                }
+                Err(e) => return discard(&labels, e),
+            }
+        }
+    }
+    let labels: Vec<String> = labels.into_iter().collect();
+    match violation {
+        Some(m) => CaseReport::violation(labels, true, m),
+        None => CaseReport::pass(labels, nontrivial),
+    }
+}
